@@ -2641,7 +2641,11 @@ class DataStoreMgr:
         )
         if not tproxy:
             return
-        new_flow_nums = deserialise_set(tproxy.flow_nums).difference(removed)
+        # (a change of flow numbers may still be pending in the delta store)
+        flow_nums = self.from_delta_or_node(
+            self.updated[TASK_PROXIES].get(tp_id), tproxy, 'flow_nums'
+        )
+        new_flow_nums = deserialise_set(flow_nums or '[]').difference(removed)
         self._delta_task_flow_nums(tp_id, new_flow_nums)
 
     def _delta_task_flow_nums(self, tp_id: str, flow_nums: 'FlowNums') -> None:
